@@ -40,8 +40,10 @@ pub enum Entry {
     /// serde's in-memory value deserializers (`glue::de_value`): the primitive's own, and a one-element sequence
     DeValue,
     DeValueSeq,
+    /// `Default::default()` (the start value is not used)
+    Default,
 }
-const ENTRIES: [Entry; 11] = [
+const ENTRIES: [Entry; 12] = [
     Entry::TryNew,
     Entry::TryFromOwned,
     Entry::TryFromStr,
@@ -53,6 +55,7 @@ const ENTRIES: [Entry; 11] = [
     Entry::Arbitrary,
     Entry::DeValue,
     Entry::DeValueSeq,
+    Entry::Default,
 ];
 
 #[derive(Clone, Debug)]
@@ -128,6 +131,7 @@ pub fn check<I: Inputs>(vt: &'static Vt<I>, ctx: &Ctx) -> DeclReport {
                 }
             }
             Entry::Arbitrary => vt.arbitrary.and_then(|f| f(&c.start.key()).ok()),
+            Entry::Default => vt.default.map(|f| f()),
             Entry::DeValue => vt.de_value.and_then(|f| f(c.start.clone(), 0)).and_then(|r| r.ok()),
             Entry::DeValueSeq => vt.de_value.and_then(|f| f(c.start.clone(), 1)).and_then(|r| r.ok()),
             Entry::DeInPlace => match (vt.de_in_place, crate::props::c04::valid_start(vt), enc(Fmt::Json, &c.start)) {
@@ -147,7 +151,7 @@ pub fn check<I: Inputs>(vt: &'static Vt<I>, ctx: &Ctx) -> DeclReport {
             let fixed = |x: &I| matches!(crate::model::construct(m, x.clone()), Ok(ref y) if y.same(x));
             // (Arbitrary uses the start only as bytes: the value it yields is unrelated to it)
             // a chain of one function declared idempotent is idempotent everywhere
-            let gate = !has_custom_san || m.sans.len() == 1 || fixed(&v0) || (c.entry != Entry::Arbitrary && matches!(crate::model::construct(m, c.start.clone()), Ok(ref e) if fixed(e)));
+            let gate = !has_custom_san || m.sans.len() == 1 || fixed(&v0) || (!matches!(c.entry, Entry::Arbitrary | Entry::Default) && matches!(crate::model::construct(m, c.start.clone()), Ok(ref e) if fixed(e)));
             if gate {
                 match no_panic(|| (vt.ctor)(v0.clone())) {
                     Ok(Ok(x)) if x.same(&v0) => {}
@@ -252,6 +256,7 @@ pub fn check<I: Inputs>(vt: &'static Vt<I>, ctx: &Ctx) -> DeclReport {
             Entry::DeJson | Entry::DeMsgPack => vt.de.is_some(),
             Entry::DeInPlace => vt.de_in_place.is_some(),
             Entry::Arbitrary => vt.arbitrary.is_some(),
+            Entry::Default => vt.default.is_some(),
             Entry::DeValue | Entry::DeValueSeq => vt.de_value.is_some(),
         })
         .collect();
